@@ -89,6 +89,26 @@ func (s *Shrinker) Minimise(tr *Trace) *Trace {
 		if ok, _ := s.try(c); ok {
 			best = c
 		}
+		c = best.Clone()
+		for i := range c.Blocks {
+			c.Blocks[i].Noise = nil
+		}
+		c.Knobs.RefMempool = false
+		if ok, _ := s.try(c); ok {
+			best = c
+		} else {
+			// keep only the noise of one block at a time, latest first
+			for i := len(best.Blocks) - 1; i >= 0; i-- {
+				if len(best.Blocks[i].Noise) == 0 {
+					continue
+				}
+				c = best.Clone()
+				c.Blocks[i].Noise = nil
+				if ok, _ := s.try(c); ok {
+					best = c
+				}
+			}
+		}
 	}
 	// 3. remove chunks of transactions (ddmin over the flattened tx list)
 	type pos struct{ b, t int }
